@@ -169,7 +169,7 @@ class Prog:
                 e0 = L.strip_try(s["e"])
                 if e0.get("k") == "MethodCall" and e0.get("method") == "read_exact" and self.is_cursor(e0["recv"]):
                     tgt = strip(e0["args"][0])
-                    if tgt.get("k") == "Path" and tgt.get("res") == "local" and not (tgt.get("name") or "").startswith("unmapped") and tgt.get("name") != "buf":
+                    if tgt.get("k") == "Path" and tgt.get("res") == "local" and not (tgt.get("name") or "").startswith("unmapped"):
                         users = [s2 for s2 in stmts[si + 1:] if s2.get("k") == "Let" and s2["pat"].get("k") == "Bind" and any(x.get("k") == "Path" and x.get("id") == tgt.get("id") for x in tir.walk(s2.get("init") or {}))]
                         tails_use = n2.get("tail") is not None and any(x.get("k") == "Path" and x.get("id") == tgt.get("id") for x in tir.walk(n2["tail"]))
                         if len(users) == 1 and not tails_use:
